@@ -15,6 +15,14 @@
    The wake-up of a blocked waiter is its own event (Wake / CancelWake / ErrWake): the theorems cover
    every placement of it, including "several select cases ready".
 
+   WatchChanges(initial, ToWatchable(ctr), cb) is one more actor: its waiter kind [WWatch current] has the wait
+   condition of WaitValueChange current and runs the very same steps (WGate / WSampled / WBlocked, Sect / Eval /
+   Wake / CancelWake / ErrWake); where WaitValueChange would return a value v, the watcher enters the user
+   callback ([WCb (WWatch current) v]: harness-owned, it parks); [CbRet a false] (callback returned nil) starts the
+   next round at the entry gate with current := v, [CbRet a true] (callback returned an error) returns that error
+   ([ECb]).  Context and error channel are those of the whole WatchChanges call; [start] is reset at every round
+   (the WaitValueChange call of the round is made when the callback returns).
+
    Ghost components (never read by the behaviour): [vh] the list of all values the cell has held,
    [start] (per actor) the index in [vh] of the value held when the call was made, [lin] the operations
    in the order of their critical sections (linearization order), [esent] "a non-nil error was sent". *)
@@ -27,9 +35,10 @@ Definition apply_f (f : swapf) (v : N) : N :=
 
 Inductive op := OGet | OSet (v : N) | OSwap (f : swapf).
 (* validators are coded by two numbers (family p, parameter k) *)
-Inductive wkind := WValue | WChange (old : N) | WEmpty | WValid (p k : N).
+Inductive wkind := WValue | WChange (old : N) | WEmpty | WValid (p k : N)
+                 | WWatch (cur : N).                 (* one round of WatchChanges: WaitValueChange cur, then the callback *)
 Inductive vres := VNo | VOk | VErr.                 (* validator: (false,nil) | (true,nil) | (_, err) *)
-Inductive errk := ENone | ECanceled | EErrCh | EValid.
+Inductive errk := ENone | ECanceled | EErrCh | EValid | ECb.   (* ECb: the WatchChanges callback's error *)
 
 Inductive apc :=
 | PGate (o : op)                                    (* at the HoldLock entry gate *)
@@ -37,7 +46,8 @@ Inductive apc :=
 | WGate (w : wkind)                                 (* waiter at the HoldLock entry gate *)
 | WSampled (w : wkind) (v : N) (ch : nat)           (* left the section with (val, wake) *)
 | WBlocked (w : wkind) (v : N) (ch : nat)           (* in the select *)
-| WRet (w : wkind) (v : N) (e : errk).              (* returned (v, e) *)
+| WRet (w : wkind) (v : N) (e : errk)               (* returned (v, e) *)
+| WCb (w : wkind) (v : N).                          (* WatchChanges: inside the user callback, called with v *)
 
 Record actor := { pc : apc;
                   ctxc : bool;                      (* its context is cancelled *)
@@ -54,10 +64,19 @@ Inductive ev :=
 | Sect (a : nat)                                    (* actor a runs the critical section it is parked in front of *)
 | Eval (a : nat)                                    (* waiter a: validator on its sample, then enter the select or return *)
 | Wake (a : nat) | CancelWake (a : nat) | ErrWake (a : nat)   (* the three select cases *)
-| CancelCtx (a : nat) | ErrSend (a : nat) (m : bool) | ErrClose (a : nat).
+| CancelCtx (a : nat) | ErrSend (a : nat) (m : bool) | ErrClose (a : nat)
+| CbRet (a : nat) (err : bool).                     (* the callback of watcher a returns (err: a non-nil error) *)
 
 Definition set_pc (x : actor) (p : apc) : actor :=
   {| pc := p; ctxc := ctxc x; hasch := hasch x; errq := errq x; eclosed := eclosed x; esent := esent x; start := start x |}.
+
+(* next round of a watcher: new pc, [start] := the index of the value held now *)
+Definition set_pc_start (x : actor) (p : apc) (st0 : nat) : actor :=
+  {| pc := p; ctxc := ctxc x; hasch := hasch x; errq := errq x; eclosed := eclosed x; esent := esent x; start := st0 |}.
+
+(* what a waiter does with a value that satisfies its condition: return it / hand it to the callback *)
+Definition ok_pc (w : wkind) (v : N) : apc :=
+  match w with WWatch _ => WCb w v | _ => WRet w v ENone end.
 
 Definition new_actor (p : apc) (hc : bool) (st0 : nat) : actor :=
   {| pc := p; ctxc := false; hasch := hc; errq := []; eclosed := false; esent := false; start := st0 |}.
@@ -83,6 +102,7 @@ Section Model.
     | WChange old => if compare old v then VNo else VOk
     | WEmpty => if compare 0 v then VOk else VNo
     | WValid p k => validator p k v
+    | WWatch cur => if compare cur v then VNo else VOk
     end.
 
   Definition init (v0 : N) : st := {| b := bc0; val := v0; acts := []; vh := [v0]; lin := [] |}.
@@ -133,7 +153,7 @@ Section Model.
         | WSampled w v ch =>
           match cond w v with
           | VErr => with_acts s (seta s a (WRet w 0 EValid))
-          | VOk => with_acts s (seta s a (WRet w v ENone))
+          | VOk => with_acts s (seta s a (ok_pc w v))
           | VNo => with_acts s (seta s a (WBlocked w v ch))
           end
         | _ => s
@@ -199,6 +219,17 @@ Section Model.
                                                 eclosed := true; esent := esent x; start := start x |})
         else s
       end
+    | CbRet a err =>
+      match nth_error (acts s) a with
+      | None => s
+      | Some x =>
+        match pc x with
+        | WCb w v =>
+          if err then with_acts s (seta s a (WRet w 0 ECb))                 (* the callback's error is returned *)
+          else with_acts s (set_nth (acts s) a (set_pc_start x (WGate (WWatch v)) (length (vh s) - 1)))   (* current := v; next round *)
+        | _ => s
+        end
+      end
     end.
 
   Definition run (v0 : N) (es : list ev) : st := fold_left step es (init v0).
@@ -220,6 +251,7 @@ Section Model.
   Definition at_gate (x : actor) : bool :=
     match pc x with PGate _ | WGate _ | WSampled _ _ _ => true | _ => false end.
   Definition blocked (x : actor) : bool := match pc x with WBlocked _ _ _ => true | _ => false end.
+  Definition is_watch (w : wkind) : bool := match w with WWatch _ => true | _ => false end.
   Definition err_ready (x : actor) : bool := match errq x with [] => eclosed x | _ => true end.
   (* no actor at a gate, and no blocked waiter has a ready select case *)
   Definition quiescent (s : st) : bool :=
